@@ -90,13 +90,15 @@ structure State where
 
 namespace State
 
+/-- object 50 is `level`: owned by the context, alive for its whole life, archived by the host -/
+def objAlive (s : State) (o : Nat) : Bool := o == 50 || s.objs.contains o
 def th? (s : State) (t : Nat) : Option Th := (s.threads.find? (·.1 == t)).map (·.2)
 def setTh (s : State) (t : Nat) (f : Th → Th) : State :=
   { s with threads := s.threads.map (fun e => if e.1 == t then (e.1, f e.2) else e) }
 def isThread (t : Nat) : Bool := t ≥ 100
 /-- a weak reference to `l` is still non-null: the object's destructor has not finished -/
 def alive (s : State) (l : Nat) : Bool :=
-  if isThread l then s.threads.any (fun e => e.1 == l && !e.2.dead) else s.objs.contains l
+  if isThread l then s.threads.any (fun e => e.1 == l && !e.2.dead) else objAlive s l
 def hasVM (s : State) (t : Nat) : Bool := match s.th? t with | some th => th.hasVM | none => false
 def emit (s : State) (m : String) : State := { s with out := m :: s.out }
 def setRet (s : State) (c : Nat) (r : Ret) : State :=
@@ -384,7 +386,7 @@ def exec : Nat → State → Nat → Th → Instr → State
       let s := addTiming (s.setTh t (fun th => { th with ts := .timing })) t ms
       vmSuspend s t
     | .waittill o names =>
-      if !s.objs.contains o then s else          -- `$o` is NULL: script error, statement skipped
+      if !s.objAlive o then s else          -- `$o` is NULL: script error, statement skipped
       match s.cur with
       | none => s
       | some c =>
@@ -399,7 +401,7 @@ def exec : Nat → State → Nat → Th → Instr → State
             else s
           { s with waitFor := Tbl.push s.waitFor (c, n) o }) s
     | .waittillTimeout o n ms =>
-      if !s.objs.contains o then s else
+      if !s.objAlive o then s else
       match s.cur with
       | none => s
       | some c =>
@@ -413,9 +415,9 @@ def exec : Nat → State → Nat → Th → Instr → State
         -- CurrentThread()->PostEvent(new Event(EV_ScriptThread_CancelWaiting), timeout)
         postEvent s c (s.clock + ms)
     | .notify o n =>
-      if !s.objs.contains o then s else unregister fuel s o n
+      if !s.objAlive o then s else unregister fuel s o n
     | .endon o n =>
-      if !s.objs.contains o then s else
+      if !s.objAlive o then s else
       match s.cur with
       | none => s
       | some c => { s with endOn := Tbl.pushUnique s.endOn (o, n) c }
